@@ -20,7 +20,12 @@ C04 — Reported error locations point at the offending construct.
             (4) whole reports (error TREES rendered by ``error_message`` directly, by
                 ``run.load_model`` and by ``smoke.execute``): every ``At line L and column C``
                 prefix belongs to an error that HAS a node and names that node's position; an
-                error without a node carries no location prefix (``judge_report``).
+                error without a node carries no location prefix (``judge_report``);
+            (5) the GENERATOR stage (``harness/props/c04_gen.py``): accepted meta-models that a generator rejects
+                (``intermediate.errors_if_*`` called directly and ``main.execute`` for the targets) with several offending
+                constructs in sequence, with and without a node of their own: a located error is located at / inside a
+                construct its message names, and the errors of the three helpers are assignable one-to-one to the
+                offenders computed from the text.
 """
 from __future__ import annotations
 
@@ -35,6 +40,7 @@ from typing import Any, Dict, Iterator, List, Optional, Sequence, Set, Tuple
 from harness import extract
 from harness.core import REPO, Ctx, corpus, crash_name, dec_text, enc_text
 from harness.extract import ExtractError
+from harness.props import c04_gen
 from harness.pygen import gen_module
 
 ID = "C04"
@@ -52,9 +58,20 @@ def gen_Lineno(repo: pathlib.Path) -> str:
     init = extract._func(cls, "__init__")
     errm = extract._func(cls, "error_message")
 
-    # the newline: the one-character string constant a loop variable is compared with
+    # the newline: the one-character string constant a loop variable is compared with — in ``__init__`` itself or in a
+    # function / method it calls by name (the table may be computed by a helper)
+    called = set()
+    for node in ast.walk(init):
+        if isinstance(node, ast.Call):
+            if isinstance(node.func, ast.Name):
+                called.add(node.func.id)
+            elif isinstance(node.func, ast.Attribute):
+                called.add(node.func.attr)
+    scopes: List[ast.AST] = [init]
+    scopes += [f for f in mod.body if isinstance(f, ast.FunctionDef) and f.name in called]
+    scopes += [f for f in cls.body if isinstance(f, ast.FunctionDef) and f.name in called and f is not init]
     newlines = set()
-    for loop in ast.walk(init):
+    for loop in (n for scope in scopes for n in ast.walk(scope)):
         if not isinstance(loop, ast.For) or not isinstance(loop.target, ast.Name):
             continue
         for node in ast.walk(loop):
@@ -728,6 +745,124 @@ def judge_composed(ctx: Ctx, case_id: str, src: str, with_smoke: bool) -> Tuple[
     return bad, wire
 
 
+# --------------------------------------------------------------------------- oracle (5): the generator stage
+
+_HELPERS = [
+    # (key of the designed expectation, name in ``intermediate``, beginning of the headline main.execute writes)
+    ("contracts", "errors_if_contracts_for_functions_or_methods_defined", "We do not support pre and post-conditions"),
+    ("methods", "errors_if_non_implementation_specific_methods", "We added some support for understood methods"),
+    ("nested_lists", "errors_if_nested_lists", "We do not support lists of lists"),
+]
+
+ALL_TARGETS = ["cpp", "csharp", "golang", "java", "jsonschema", "python", "typescript", "xsd"]
+
+
+def generator_targets(case_id: str, k: int, thorough: bool) -> List[str]:
+    """The targets ``main.execute`` runs for in the quick tier (seed independent rotation); all of them in the thorough tier."""
+    family = case_id.split("|")[0]
+    sdk = ["cpp", "csharp", "golang", "java", "python", "typescript"]
+    if thorough:
+        # the three helpers give the same errors for every SDK target: three rotating ones for the big family
+        return [sdk[k % 6], sdk[(k + 1) % 6], sdk[(k + 3) % 6]] if family == "signatures" else list(ALL_TARGETS)
+    if family in ("collisions", "transpilation", "corpus"):
+        return list(ALL_TARGETS)
+    if family == "descriptions":
+        rest = ["cpp", "golang", "java", "python", "typescript"]  # the five generators that can not render the description
+        return [rest[k % 5], rest[(k + 2) % 5]]
+    if family == "nested-lists":
+        return [sdk[k % 6], sdk[(k + 3) % 6]]
+    return [sdk[k % 6]]
+
+
+def judge_generator(ctx: Ctx, case_id: str, src: str, targets: Sequence[str]) -> Tuple[List[Tuple[str, str, Dict[str, Any]]], List[Tuple[str, Tree, str]]]:
+    """Oracle (5) on one meta-model: ``(failures (sig, what, extra input fields), error trees for the Lean model)``."""
+    from harness import mm
+
+    bad: List[Tuple[str, str, Dict[str, Any]]] = []
+    wires: List[Tuple[str, Tree, str]] = []
+    ld = mm.load(src)
+    if ld.symbol_table is None or ld.atok is None:
+        ctx.hit("generator:front-end-" + ("crashes" if ld.crash else "rejects"))  # not a matter of this stream
+        return bad, wires
+    try:
+        ix = c04_gen.Index(src)
+    except (SyntaxError, ValueError):
+        return bad, wires
+    expected = c04_gen.expected_helper_errors(ix)
+    starts = token_starts(src)
+    lines = src.split("\n")
+
+    def judge_entries(entries: Sequence[c04_gen.Entry], helper: Optional[str], via: str) -> None:
+        located = [e for e in entries if e[1] is not None]
+        ctx.hit("generator:located-errors", len(located))
+        ctx.hit("generator:unlocated-top-level-errors", sum(1 for d, loc, _ in entries if d == 0 and loc is None))
+        if any(d > 0 for d, loc, _ in entries if loc is not None):
+            ctx.hit("generator:located-underlying-errors")
+        for _, loc, msg in located:
+            if loc not in starts:
+                sig = "C04:column-shift-after-first-line" if loc[0] > 1 and (loc[0], loc[1] - 1) in starts else "C04:generator:not-the-start-of-a-construct"
+                bad.append((sig, f"{case_id} ({via}): 'At line {loc[0]} and column {loc[1]}' ({msg[:60]!r}) is not the start of a construct of that line", {"via": via}))
+                return
+        for sig, what in c04_gen.judge_entities(ix, entries):
+            bad.append((sig, f"{case_id} ({via}): {what}", {"via": via}))
+            return
+        if helper is not None:
+            comparable, fails = c04_gen.judge_expected(entries, expected[helper])
+            ctx.hit("generator:expectation-" + ("compared" if comparable else "not-comparable"))
+            if not comparable and not any(n.startswith("generator stream:") for n in ctx.notes):
+                ctx.note(f"generator stream: the errors of {helper} on {case_id} ({via}) are not the designed ones; locations judged by the entity rule only")
+            for sig, what in fails:
+                bad.append((sig, f"{case_id} ({via}): {what}", {"via": via}))
+                return
+
+    # ---- the three helpers, in-process
+    try:
+        from aas_core_codegen import intermediate
+        from aas_core_codegen.common import LinenoColumner
+
+        lc = LinenoColumner(ld.atok)
+    except BaseException as e:  # noqa
+        return [("C04:table:" + crash_name(e), f"{case_id}: LinenoColumner() raised {crash_name(e)}", {})], wires
+    for key, fname, _ in _HELPERS:
+        try:
+            errors = getattr(intermediate, fname)(ld.symbol_table) or []
+        except BaseException as e:  # noqa
+            ctx.hit(f"generator:{key}:{crash_name(e)}")  # a crashing helper is not a matter of C04
+            continue
+        entries: List[c04_gen.Entry] = []
+        for err in errors:
+            try:
+                text = lc.error_message(err)
+            except BaseException as e:  # noqa
+                bad.append(("C04:error_message:" + crash_name(e), f"{case_id} ({key}): error_message raised {crash_name(e)}", {"via": key}))
+                return bad, wires
+            flat = flatten_error(src, lines, ld.atok.tree, err)
+            for sig, what in judge_report(text, flat, all(single_line(m) for _, _, m in flat)):
+                bad.append((sig, f"{case_id} ({key}, error_message): {what}", {"via": key}))
+            entries += c04_gen.parse_rendered(text, False)
+            wires.append((ld.atok.text, error_wire_tree(ld.atok, src, err), "ok " + enc_text(text)))
+        if errors:
+            ctx.hit("generator:helper-reports:" + key)
+        if not bad:
+            judge_entries(entries, key, key)
+    # ---- main.execute
+    cache = mm.new_scratch("c04cache")
+    for target in targets:
+        if bad:
+            break
+        res = mm.generate(target, src, mm.new_scratch("c04out"), symbol_table=ld.symbol_table, cache_dir=cache)
+        if res.exception is not None:
+            ctx.hit(f"generator:{target}:{res.exception}")  # C01/C03
+            continue
+        ctx.hit(f"generator:{target}:rc={res.rc}")
+        if res.rc == 0:
+            continue
+        head = res.stderr.split("\n", 1)[0]
+        helper = next((key for key, _, h in _HELPERS if head.startswith(h)), None)
+        judge_entries(c04_gen.parse_rendered(res.stderr, True), helper, "main.execute:" + target)
+    return bad, wires
+
+
 # --------------------------------------------------------------------------- input streams
 
 CLS = ["a", "b", " ", "\t", "\n", "\n", "\r", "\r\n", "\f", "\v", "é", "ü", "😀", "e\u0301", "\ud800", "\u2028", "\x85", "x = 1", "#", "\u3000", "\x1c"]
@@ -994,6 +1129,30 @@ def _run(ctx: Ctx, with_model: bool) -> None:
                 ctx.disagree("errmsg-composed", {"kind": "report", "id": case_id, "source": src}, got[:300], want[:300])
             ctx.traces_validated += 1
 
+    # ---- (f) the generator stage: accepted meta-models which a generator rejects with located errors
+    _run_generator(ctx, with_model)
+
+
+def _run_generator(ctx: Ctx, with_model: bool) -> None:
+    thorough = ctx.tier == "thorough"
+    models = [("corpus|" + str(c.get("id", "")), c["source"]) for c in corpus(ID) if c.get("kind") == "generator"] + c04_gen.all_models(thorough)
+    glines: List[str] = []
+    gpend: List[Tuple[str, str, Tree, str]] = []
+    for k, (case_id, src) in enumerate(models):
+        ctx.count(("generator", src), nontrivial=True, stream="generator:" + case_id.split("|")[0])
+        bad, wires = judge_generator(ctx, case_id, src, generator_targets(case_id, k, thorough))
+        for sig, what, extra in bad:
+            ctx.fail({"kind": "generator", "id": case_id, "source": src, **extra}, what, sig)
+        if with_model:
+            for text, tr, got in wires:
+                glines.append(f"errmsg {enc_text(text)} {tree_wire(tr)}")
+                gpend.append((case_id, src, tr, got))
+    if with_model and glines:
+        for (case_id, src, tr, got), want in zip(gpend, ctx.model(glines)):
+            if got != want:
+                ctx.disagree("errmsg-generator", {"kind": "generator", "id": case_id, "source": src}, got[:300], want[:300])
+            ctx.traces_validated += 1
+
 
 def judge_errmsg(text: str, tr: Tree, got: str) -> List[Tuple[str, str]]:
     """The located top-level error names the position of its start; offsets inside the text never crash."""
@@ -1033,6 +1192,10 @@ def correspond(ctx: Ctx) -> None:
         "errmsg:enumerated-trees: every error tree up to depth 3 / width 2 and depth 2 / width 3 (and every 29th up to depth 3 / width 3) "
         "with every node located or not; report: composed meta-models with every subset of 4 located x 4 un-located parse defects and "
         "3 located x 1 un-located intermediate defects through error_message, run.load_model and smoke; "
+        "generator: accepted meta-models rejected by the generators (contracts on own / inherited / synthesized constructors, methods and "
+        "functions; understood methods; lists of lists; names colliding in the targets; descriptions that can not be rendered at 15 "
+        "positions, singly and in pairs; stacked and inherited invariants, functions and numbers that a target can not transpile) through "
+        "the three intermediate.errors_if_* helpers directly and main.execute for rotating targets (all 8 in the thorough tier); "
         "distinct by value"
     )
     _run(ctx, True)
@@ -1108,6 +1271,13 @@ def replay(ctx: Ctx, data: Dict[str, Any]) -> Any:
         if ctx.driver_ok:
             m = ctx.model([f"errmsg {enc_text(atok.text)} {tree_wire(tr)}"])[0]
             res["model"] = m if not m.startswith("ok ") else dec_text(m[3:])
+    elif kind == "generator":
+        bad, wires = judge_generator(ctx, inp.get("id", "replay"), inp["source"], ALL_TARGETS)
+        res["oracle"] = [(s, w) for s, w, _ in bad]
+        res["impl"] = [dec_text(g[3:]) for _, _, g in wires]
+        if ctx.driver_ok and wires:
+            ms = ctx.model([f"errmsg {enc_text(t)} {tree_wire(tr)}" for t, tr, _ in wires])
+            res["model"] = [m if not m.startswith("ok ") else dec_text(m[3:]) for m in ms]
     else:
         res["error"] = f"unknown replay kind {kind!r}"
     return res
